@@ -12,64 +12,6 @@ import Gotree.Lemmas.C15Heap
 
 namespace Gotree.C15.Heap
 
-/-- where an operand comes from: a path of reference-field indexes from the root of the
-    edited tree, or the k-th cell allocated by this program -/
-inductive Src
-  | path (p : List Nat)
-  | fresh (k : Nat)
-  deriving Repr
-
-inductive Op
-  | setData (t : Src) (v : Nat)          -- store into the non-reference part of a cell
-  | setPtrs (t : Src) (l : List Src)     -- store the reference fields of a cell
-  | alloc                                -- allocate one cell (no references, data 0)
-  | copyData (t : Src) (src : Src)       -- store the non-reference part of another cell (read anywhere)
-  deriving Repr
-
-def follow (h : H) : Addr → List Nat → Option Addr
-  | a, [] => some a
-  | a, i :: p => match (h.ptrs a)[i]? with
-    | some b => follow h b p
-    | none => none
-
-def resolve (h : H) (r base : Addr) : Src → Option Addr
-  | .path p => follow h r p
-  | .fresh k => if base + k < h.next then some (base + k) else none
-
-def resolveAll (h : H) (r base : Addr) : List Src → Option (List Addr)
-  | [] => some []
-  | s :: l => match resolve h r base s, resolveAll h r base l with
-    | some a, some as => some (a :: as)
-    | _, _ => none
-
-def setDataAt (h : H) (a : Addr) (v : Nat) : H := { h with data := fun x => if x = a then v else h.data x }
-def setPtrsAt (h : H) (a : Addr) (l : List Addr) : H := { h with ptrs := fun x => if x = a then l else h.ptrs x }
-def allocCell (h : H) : H :=
-  { ptrs := fun x => if x = h.next then [] else h.ptrs x,
-    data := fun x => if x = h.next then 0 else h.data x,
-    next := h.next + 1 }
-
-/-- an operand that does not resolve makes the operation a no-op (a nil dereference would panic:
-    nothing is written either) -/
-def step (r base : Addr) (h : H) : Op → H
-  | .setData t v => match resolve h r base t with
-    | some a => setDataAt h a v
-    | none => h
-  | .setPtrs t l => match resolve h r base t, resolveAll h r base l with
-    | some a, some bs => setPtrsAt h a bs
-    | _, _ => h
-  | .alloc => allocCell h
-  | .copyData t s => match resolve h r base t, resolve h r base s with
-    | some a, some b => setDataAt h a (h.data b)
-    | _, _ => h
-
-def exec (r base : Addr) : List Op → H → H
-  | [], h => h
-  | o :: os, h => exec r base os (step r base h o)
-
-/-- an edit: the program may be computed from the whole heap (the edit may READ anything) -/
-def runProg (r : Addr) (prog : H → List Op) (h : H) : H := exec r h.next (prog h) h
-
 /-- the cells the program may touch: reachable from the root at the start, or allocated since -/
 def InS (h0 : H) (r : Addr) (h : H) (a : Addr) : Prop := Reach h0 r a ∨ (h0.next ≤ a ∧ a < h.next)
 
